@@ -162,7 +162,7 @@ struct Form {
 
 #define CMOVS "cmova cmovae cmovb cmovbe cmovc cmove cmovg cmovge cmovl cmovle cmovna cmovnae cmovnb cmovnbe cmovnc cmovne cmovng cmovnge cmovnl cmovnle cmovno cmovnp cmovns cmovnz cmovo cmovp cmovpe cmovpo cmovs cmovz"
 #define SETS "seta setae setb setbe setc sete setg setge setl setle setna setnae setnb setnbe setnc setne setng setnge setnl setnle setno setnp setns setnz seto setp setpe setpo sets setz"
-#define JCCS "ja jae jb je jg jge jl jle jne jno jnp jns jo jp js"
+#define JCCS "ja jae jb jbe je jg jge jl jle jne jno jnp jns jo jp js"
 #define ALUS "add or adc sbb and sub xor cmp"
 #define PMMX "paddb paddw paddd paddq psubb psubw psubd psubq pandn por pxor pmulhuw pmulhw pmullw pmuludq pmulhrsw"
 #define VPS "vpaddb vpaddw vpaddd vpaddq vpsubb vpsubw vpsubd vpsubq vpand vpandn vpor vpxor vpmulhuw vpmulhw vpmullw vpmuludq vpmuldq vpmulhrsw vpmulld"
@@ -194,7 +194,7 @@ static const Form FORMS[] = {
   // ---- branches ----
   {"jmp call " JCCS " jrcxz xbegin", "REL", "-", KW_NONE, "branch"},
   {"jmp call", "R64", "-", KW_NONE, "branchind"}, {"jmp call", "M64", "-", KW_OPT, "branchind"},
-  {"jmp call", "FARM", "wdq", KW_OPT, "branchfar"},
+  {"jmp call", "FARM", "wdq", KW_REQ, "branchfar"},
   // ---- BMI2 ----
   {"bextr bzhi sarx shlx shrx", "R,R,R", "dq", KW_NONE, "bmi"}, {"bextr bzhi sarx shlx shrx", "R,M,R", "dq", KW_NONE, "bmi"},
   {"mulx", "R,R,R", "dq", KW_NONE, "bmi"}, {"mulx", "R,R,M", "dq", KW_NONE, "bmi"},
